@@ -608,6 +608,8 @@ type opOutcome struct {
 	changed bool // some list's url/enabled/membership changed
 	// for seturl failures at download stage
 	failedSetURL *mlist
+	// the list a successful set_url was applied to
+	target *mlist
 }
 
 // setLocal puts the local list file into the planned state.
@@ -770,6 +772,7 @@ func (r *run) membership(op Op, out *opOutcome, recs []*ls.Record) error {
 				tgt.unloaded = "url-changed"
 			}
 			tgt.url, tgt.enabled = u2, op.En
+			out.target = tgt
 			r.c.Probe("seturl_accepted")
 		case 400:
 			r.c.Probe("seturl_rejected")
@@ -892,8 +895,12 @@ func (r *run) earlierVerdict(v int, reason string) bool {
 			vers = [][]string{l.lines}
 		}
 		for _, lines := range vers {
-			exact, _ := hasLine(lines, v)
+			exact, mention := hasLine(lines, v)
 			if rec(i+1, allow || (exact && l.white), block || (exact && !l.white)) {
+				return true
+			}
+			// a line that merely contains the name may or may not match it
+			if mention && !exact && rec(i+1, allow || l.white, block || !l.white) {
 				return true
 			}
 		}
@@ -986,7 +993,7 @@ func (r *run) check(op Op, out *opOutcome, recs []*ls.Record) error {
 			kindReq[l.white] = true
 		}
 		acc := []fstate{l.st}
-		sawNew, sawCertainNew, onlySame := false, false, true
+		sawNew, sawCertainNew, sawCertainExpNew, onlySame := false, false, false, true
 		l.earlier = nil
 		if l.st.has {
 			l.earlier = append(l.earlier, l.lines)
@@ -1016,10 +1023,11 @@ func (r *run) check(op Op, out *opOutcome, recs []*ls.Record) error {
 			if !rec.Uncertain {
 				sawCertainNew = true
 			}
-			if cl == expEither && out.code == 200 && ((op.K == "add" && l == out.added) || (op.K == "seturl" && l.unloaded == "url-changed")) {
+			if cl == expEither && out.code == 200 && ((op.K == "add" && l == out.added) || (op.K == "seturl" && l == out.target)) {
 				// The request that downloaded it was accepted: the text counts
 				// as taken (the old file came from another location).
 				cl = expNew
+				sawCertainExpNew = true
 			}
 			if cl == expEither {
 				acc = append(acc, ns)
@@ -1031,6 +1039,9 @@ func (r *run) check(op Op, out *opOutcome, recs []*ls.Record) error {
 				continue
 			}
 			okN++
+			if !rec.Uncertain {
+				sawCertainExpNew = true
+			}
 			next := []fstate{ns}
 			if ns.nf == "" {
 				// No rules: the statement does not ask for an empty file
@@ -1157,6 +1168,10 @@ func (r *run) check(op Op, out *opOutcome, recs []*ls.Record) error {
 			if op.K == "restart" && obs.has {
 				c.Probe("restart_reparsed_same_count")
 			}
+		}
+		if sawCertainExpNew {
+			// a download that had to be taken re-establishes the remembered checksum
+			l.unloaded = ""
 		}
 		l.st, l.lines, l.inode, l.count = obs, lines, fs.Inode, cnt
 	}
@@ -1369,6 +1384,7 @@ var Prop = &kernel.Property{
 	Level: "exploration",
 	Rule: "seeded histories (rapid) of add_url / set_url (new location, disable, re-enable) / remove_url / forced refresh / clock advance past the update interval (the real updates-loop timer refreshes) / restart / interval change over block and allow lists, " +
 		"against a list server that per request serves generated text (mixed line ends, blanks, comments, titles, long lines, control bytes, same rules in other clothes, same characters split differently) in three framings or fails (dial, status, cut in headers, cut body with Content-Length or chunked at after-headers / mid-line / line-boundary / last-byte, stall past the client timeout, HTML page, binary body); " +
+		"one list location is a local file under a safe pattern that the harness rewrites, deletes or turns into a directory; " +
 		"a case is non-trivial when >=1 changed content was stored and >=1 injected fault fired; distinct = distinct scenario digests",
 	Gen: Gen,
 	New: func() any { return &Scenario{} },
@@ -1390,6 +1406,7 @@ var Prop = &kernel.Property{
 		"a completely delivered text whose rule lines have the same CRC-32 as the stored ones may be kept un-stored (the statement's 'unchanged checksum')",
 		"HTTP bodies delimited by connection close are only generated complete (truncation is invisible by protocol design)",
 		"operations are serialised (mode A): the next operation starts when the previous refresh has finished",
+		"reads of the local-file list are not intercepted: a forced refresh of its kind certainly reads it (strict expectation); during other operations the list may show either its previous state or the normal form of the file's current content, and only its previous state while the file is unreadable",
 		"a stalled download inside set_url is delivered as a dead connection (set_url holds the list mutex while downloading; a timer-driven refresh blocking on that mutex would stop the simulated clock); stalls past the client timeout are simulated for add_url, forced and scheduled refresh",
 	},
 	FaultKinds: []string{"dial_error", "status_not_200", "cut_in_headers", "cut_content_length", "cut_chunked", "slow_headers_timeout", "slow_body_timeout", "html_page", "binary_body", "local_file_missing", "local_file_is_directory", "clean_restart"},
